@@ -1,0 +1,38 @@
+// Copyright © 2026 Meroxa, Inc.
+//
+// Licensed under the Apache License, Version 2.0 (the "License");
+// you may not use this file except in compliance with the License.
+// You may obtain a copy of the License at
+//
+//     http://www.apache.org/licenses/LICENSE-2.0
+//
+// Unless required by applicable law or agreed to in writing, software
+// distributed under the License is distributed on an "AS IS" BASIS,
+// WITHOUT WARRANTIES OR CONDITIONS OF ANY KIND, either express or implied.
+// See the License for the specific language governing permissions and
+// limitations under the License.
+
+//go:build verif
+
+// Package verifhook provides yield points for external verification harnesses.
+// With the "verif" build tag a harness can register, per owner object, a
+// function that is called whenever that owner reaches a yield point; the
+// function may block to decide when the owner continues.
+package verifhook
+
+import "sync"
+
+var hooks sync.Map // owner -> func(point string)
+
+// Register installs f for owner.
+func Register(owner any, f func(point string)) { hooks.Store(owner, f) }
+
+// Unregister removes the hook of owner.
+func Unregister(owner any) { hooks.Delete(owner) }
+
+// Yield calls the hook registered for owner, if any.
+func Yield(owner any, point string) {
+	if f, ok := hooks.Load(owner); ok {
+		f.(func(string))(point)
+	}
+}
